@@ -30,7 +30,9 @@ class WorkCeiling(Exception):
 
 
 class Tracer(object):
-    def __init__(self, ceiling=None, record_reads=True):
+    def __init__(self, ceiling=None, record_reads=True, tick_ceiling=400000):
+        self.tick_ceiling = tick_ceiling   # logical bound on has_met()/has_unmet() polls (the solver's main loop)
+        self.ticks = 0
         self.events = []
         self.stack = []          # current attempts (field objects), innermost last
         self._saved = []
@@ -185,6 +187,21 @@ class Tracer(object):
             for d in omd(self):
                 t.emit('DEP', id(self), 'yield', None, _nm(d))
                 yield d
+        ohm, ohu = DT.has_met, DT.has_unmet
+
+        def has_met(self):
+            t.ticks += 1
+            if t.tick_ceiling is not None and t.ticks > t.tick_ceiling:
+                raise WorkCeiling(f'the solver polled its dependency bookkeeping more than {t.tick_ceiling} times without finishing')
+            return ohm(self)
+
+        def has_unmet(self):
+            t.ticks += 1
+            if t.tick_ceiling is not None and t.ticks > t.tick_ceiling:
+                raise WorkCeiling(f'the solver polled its dependency bookkeeping more than {t.tick_ceiling} times without finishing')
+            return ohu(self)
+        self._patch(DT, 'has_met', has_met)
+        self._patch(DT, 'has_unmet', has_unmet)
         self._patch(DT, 'add_unmet', add_unmet)
         self._patch(DT, 'meet', meet)
         self._patch(DT, 'met_dependents', met_dependents)
